@@ -2,7 +2,7 @@
   Driver side of the world ops: parse one op line, step the world model, give the outcome.
 -/
 import Axelar.Driver.Proto
-import Axelar.Model.World
+import Axelar.Model.Chain
 import Axelar.Basic.Keccak
 namespace Axelar.Driver
 open Axelar
@@ -54,6 +54,12 @@ def worldOp (st : DState) (fields : List String) : DState × Outcome :=
       ({ st with world := { w with mintRole := upd w.mintRole (a, t) (names.contains "ESDTRoleLocalMint"),
                                    burnRole := upd w.burnRole (a, t) (names.contains "ESDTRoleLocalBurn") } }, .okPlain)
     | none => (st, .fail)
+  | ["newaddr", creator, nonce, addr] =>
+    match ofHex creator, nonce.toNat?, ofHex addr with
+    | some c, some n, some a =>
+      let w := st.world
+      ({ st with world := { w with newAddrs := upd w.newAddrs (c, n) a } }, .okPlain)
+    | _, _, _ => (st, .fail)
   | ["time", n] =>
     match n.toNat? with
     | some n => ({ st with world := { st.world with now := n } }, .okPlain)
